@@ -56,66 +56,119 @@ pub fn option_lists() -> Vec<Vec<(u16, B)>> {
 
 pub fn check_build(p: &RefPacket) -> Vec<Finding> {
     let mk = || json!({"kind": "build", "packet": p});
-    let opt = p.opt.as_ref().unwrap();
     let mut out = Vec::new();
     for compressed in [false, true] {
         let r = guarded(|| {
             to_lib(p).and_then(|l| if compressed { l.build_bytes_vec_compressed() } else { l.build_bytes_vec() }.map_err(|e| format!("{:?}", e)))
         });
-        let bytes = match r {
-            Err(pn) => {
-                out.push(finding(format!("C09|build|{}", pn.sig()), format!("{:?}", pn), mk()));
-                continue;
-            }
-            Ok(Err(e)) => {
-                out.push(finding("C09|build|error", e, mk()));
-                continue;
-            }
-            Ok(Ok(b)) => b,
-        };
-        let w = match walk(&bytes) {
-            Ok(w) => w,
-            Err(e) => {
-                out.push(finding("C09|build|unwalkable", format!("{:?}: {}", e, hex(&bytes)), mk()));
-                continue;
-            }
-        };
-        let opts: Vec<_> = w.records.iter().filter(|r| r.rtype == 41).collect();
-        if opts.len() != 1 {
-            out.push(finding("C09|build|opt-count", format!("{} OPT records written", opts.len()), mk()));
-            continue;
-        }
-        let o = opts[0];
-        let mut bad = |tag: &str, d: String| out.push(finding(format!("C09|build|{}", tag), d, mk()));
-        if o.section != 3 {
-            bad("opt-section", format!("OPT written in section {}", o.section));
-        }
-        if w.counts[3] as usize != p.additional.len() + 1 {
-            bad("arcount", format!("ARCOUNT {} with {} other additional records", w.counts[3], p.additional.len()));
-        }
-        if w.end != bytes.len() {
-            bad("trailing", format!("{} bytes after the last record", bytes.len() - w.end));
-        }
-        if !o.name.name.0.is_empty() || bytes[o.start] != 0 {
-            bad("owner", format!("OPT owner is {:?}", o.name.name));
-        }
-        if o.class_raw != opt.udp {
-            bad("class-udp", format!("CLASS {} but udp size {}", o.class_raw, opt.udp));
-        }
-        let exp_ttl = [((p.rcode >> 4) & 0xff) as u8, opt.version, 0, 0];
-        if o.ttl.to_be_bytes() != exp_ttl {
-            bad("ttl-layout", format!("TTL bytes {} expected {} (ext-rcode, version, flags)", hex(&o.ttl.to_be_bytes()), hex(&exp_ttl)));
-        }
-        let mut exp_rd = Vec::new();
-        encode_options(&opt.options, &mut exp_rd);
-        if bytes[o.rdata_start..o.rdata_end()] != exp_rd[..] {
-            bad("rdata", format!("options {} expected {}", crate::engine::truncate(&hex(&bytes[o.rdata_start..o.rdata_end()]), 100), crate::engine::truncate(&hex(&exp_rd), 100)));
-        }
-        if w.flags & 0xf != p.rcode & 0xf {
-            bad("header-rcode", format!("header rcode bits {} expected {}", w.flags & 0xf, p.rcode & 0xf));
+        match r {
+            Err(pn) => out.push(finding(format!("C09|build|{}", pn.sig()), format!("{:?}", pn), mk())),
+            Ok(Err(e)) => out.push(finding("C09|build|error", e, mk())),
+            Ok(Ok(b)) => judge_bytes(p, &b, "build", &mk, &mut out),
         }
     }
     out
+}
+
+/// A message with EDNS data is parsed, then edited through the public mutators (response code
+/// replaced through rcode_mut, EDNS data replaced or adjusted through opt_mut, on the packet or
+/// on a clone of it), then serialised: the bytes must describe the edited packet.
+pub fn check_parse_edit(p: &RefPacket, new_rcode: u16, edit: u8) -> Vec<Finding> {
+    let mk = || json!({"kind": "parse-edit", "packet": p, "new_rcode": new_rcode, "edit": edit});
+    let msg = p.encode(0);
+    let mut want = p.clone();
+    want.rcode = new_rcode;
+    if edit == 2 {
+        if let Some(o) = want.opt.as_mut() {
+            o.udp = 4000;
+            o.version = 3;
+        }
+    }
+    if edit == 3 {
+        want.opt = Some(RefOpt { udp: 512, version: 0, options: vec![(10, crate::gen::b(&[9, 9, 9, 9, 9, 9, 9, 9]))] });
+    }
+    let mut out = Vec::new();
+    for compressed in [false, true] {
+        let want2 = want.clone();
+        let r = guarded(|| -> Result<Vec<u8>, String> {
+            let parsed = Packet::parse(&msg).map_err(|e| format!("parse: {:?}", e))?;
+            let mut pk = if edit == 1 { parsed.clone() } else { parsed };
+            *pk.rcode_mut() = lib_rcode(new_rcode);
+            if edit == 2 {
+                if let Some(o) = pk.opt_mut().as_mut() {
+                    o.udp_packet_size = 4000;
+                    o.version = 3;
+                }
+            }
+            if edit == 3 {
+                *pk.opt_mut() = Some(lib_opt(want2.opt.as_ref().unwrap()).into_owned());
+            }
+            if compressed { pk.build_bytes_vec_compressed() } else { pk.build_bytes_vec() }.map_err(|e| format!("build: {:?}", e))
+        });
+        match r {
+            Err(pn) => out.push(finding(format!("C09|parse-edit|{}", pn.sig()), format!("{:?}", pn), mk())),
+            Ok(Err(e)) => out.push(finding("C09|parse-edit|error", e, mk())),
+            Ok(Ok(b)) => {
+                judge_bytes(&want, &b, "parse-edit", &mk, &mut out);
+                // and the result parses back to the edited packet
+                match guarded(|| Packet::parse(&b).map(|x| observe(&x))) {
+                    Ok(Ok(o)) => {
+                        if o.rcode != want.rcode || o.opt != want.opt {
+                            out.push(finding("C09|parse-edit|reparse", format!("after parse, edit (rcode {} -> {}), serialise, parse: rcode {} EDNS {:?}, expected rcode {} EDNS {:?}", p.rcode, new_rcode, o.rcode, o.opt, want.rcode, want.opt), mk()));
+                        }
+                    }
+                    Ok(Err(e)) => out.push(finding("C09|parse-edit|reparse-error", format!("{:?}", e), mk())),
+                    Err(pn) => out.push(finding(format!("C09|parse-edit|{}", pn.sig()), format!("{:?}", pn), mk())),
+                }
+            }
+        }
+    }
+    out
+}
+
+fn judge_bytes(p: &RefPacket, bytes: &[u8], stage: &str, mk: &dyn Fn() -> Value, out: &mut Vec<Finding>) {
+    let opt = p.opt.as_ref().unwrap();
+    let w = match walk(bytes) {
+        Ok(w) => w,
+        Err(e) => {
+            out.push(finding(format!("C09|{}|unwalkable", stage), format!("{:?}: {}", e, hex(bytes)), mk()));
+            return;
+        }
+    };
+    let opts: Vec<_> = w.records.iter().filter(|r| r.rtype == 41).collect();
+    if opts.len() != 1 {
+        out.push(finding(format!("C09|{}|opt-count", stage), format!("{} OPT records written", opts.len()), mk()));
+        return;
+    }
+    let o = opts[0];
+    let mut bad = |tag: &str, d: String| out.push(finding(format!("C09|{}|{}", stage, tag), d, mk()));
+    if o.section != 3 {
+        bad("opt-section", format!("OPT written in section {}", o.section));
+    }
+    if w.counts[3] as usize != p.additional.len() + 1 {
+        bad("arcount", format!("ARCOUNT {} with {} other additional records", w.counts[3], p.additional.len()));
+    }
+    if w.end != bytes.len() {
+        bad("trailing", format!("{} bytes after the last record", bytes.len() - w.end));
+    }
+    if !o.name.name.0.is_empty() || bytes[o.start] != 0 {
+        bad("owner", format!("OPT owner is {:?}", o.name.name));
+    }
+    if o.class_raw != opt.udp {
+        bad("class-udp", format!("CLASS {} but udp size {}", o.class_raw, opt.udp));
+    }
+    let exp_ttl = [((p.rcode >> 4) & 0xff) as u8, opt.version, 0, 0];
+    if o.ttl.to_be_bytes() != exp_ttl {
+        bad("ttl-layout", format!("TTL bytes {} expected {} (ext-rcode, version, flags)", hex(&o.ttl.to_be_bytes()), hex(&exp_ttl)));
+    }
+    let mut exp_rd = Vec::new();
+    encode_options(&opt.options, &mut exp_rd);
+    if bytes[o.rdata_start..o.rdata_end()] != exp_rd[..] {
+        bad("rdata", format!("options {} expected {}", crate::engine::truncate(&hex(&bytes[o.rdata_start..o.rdata_end()]), 100), crate::engine::truncate(&hex(&exp_rd), 100)));
+    }
+    if w.flags & 0xf != p.rcode & 0xf {
+        bad("header-rcode", format!("header rcode bits {} expected {}", w.flags & 0xf, p.rcode & 0xf));
+    }
 }
 
 pub fn check_parse(p: &RefPacket, opt_pos: usize) -> Vec<Finding> {
@@ -127,7 +180,9 @@ pub fn check_parse(p: &RefPacket, opt_pos: usize) -> Vec<Finding> {
         Ok(Err(e)) => vec![finding("C09|parse|rejects-rfc-layout", format!("RFC 6891 message rejected: {:?}; {}", e, crate::engine::truncate(&hex(&msg), 300)), mk())],
         Ok(Ok(o)) => {
             let mut exp = p.clone();
-            if !NAMED_RCODES.contains(&exp.rcode) {
+            // an unnamed code surfaces as Reserved, or (if the library has a name for it that this
+            // harness does not) as its own number
+            if !NAMED_RCODES.contains(&exp.rcode) && o.rcode != exp.rcode {
                 exp.rcode = RCODE_RESERVED;
             }
             diff(&exp, &o).into_iter().map(|(tag, d)| finding(format!("C09|parse|{}", tag), d, mk())).collect()
@@ -213,6 +268,11 @@ pub fn run(ctx: &Ctx) {
             }
         }
     }
+    // every 12-bit response code (extended byte x header nibble)
+    for rc in 0..4096u16 {
+        let p = RefPacket { id: rc, flags: F_QR, rcode: rc, opt: Some(RefOpt { udp: 1232, version: 0, options: vec![] }), additional: others((rc % 2) as usize), ..Default::default() };
+        pw.push((p, (rc % 2) as usize));
+    }
     for list in &lists {
         for udp in &udp_b {
             let p = RefPacket { id: 1, opt: Some(RefOpt { udp: *udp, version: 0, options: list.clone() }), additional: others(1), ..Default::default() };
@@ -236,8 +296,36 @@ pub fn run(ctx: &Ctx) {
             }
         }
     });
-    ctx.space("parse: 20 12-bit rcodes x versions x 0..=2 other records x every OPT index; option lists x udp sizes", pw.len() as u64, "complete");
+    ctx.space("parse: 20 12-bit rcodes x versions x 0..=2 other records x every OPT index; every 12-bit rcode 0..=4095; option lists x udp sizes", pw.len() as u64, "complete");
     ctx.sample(json!({"kind": "parse", "packet": pw[100].0, "opt_pos": pw[100].1}));
+    // non-initial states: parsed, edited, serialised
+    {
+        let mut cases: Vec<(RefPacket, u16, u8)> = Vec::new();
+        for (k, from) in NAMED_RCODES.iter().enumerate() {
+            for to in NAMED_RCODES {
+                for edit in 0..4u8 {
+                    let mut p = RefPacket { id: 77, flags: F_QR, rcode: *from, opt: Some(RefOpt { udp: 1232, version: (k % 2) as u8, options: lists[k % lists.len()].clone() }), ..Default::default() };
+                    p.additional = others(k % 3);
+                    p.questions.push(RefQ { name: crate::refmodel::RefName::txt("q.example"), qtype: 1, qclass: 1, unicast: false });
+                    cases.push((p, to, edit));
+                }
+            }
+        }
+        let chunks: Vec<&[(RefPacket, u16, u8)]> = cases.chunks(64).collect();
+        par_shards(ctx, &chunks, |cs, t: &mut Tally| {
+            for (p, to, edit) in cs.iter() {
+                t.evals += 1;
+                t.transitions += 3;
+                t.nontrivial += 1;
+                let f = check_parse_edit(p, *to, *edit);
+                t.outcome(if f.is_empty() { "edit-ok" } else { "edit-bad" });
+                if !f.is_empty() {
+                    ctx.violations(f);
+                }
+            }
+        });
+        ctx.space("parse-edit-serialise: every ordered pair of the 12 named response codes (incl. the extended ones) x {rcode_mut on the packet, on a clone, plus opt_mut field edits, plus a replaced OPT}; output walked independently and parsed back", cases.len() as u64, "complete");
+    }
 }
 
 pub fn replay(case: &Value) -> Vec<Finding> {
@@ -247,6 +335,7 @@ pub fn replay(case: &Value) -> Vec<Finding> {
     };
     match case["kind"].as_str().unwrap_or("") {
         "build" => check_build(&p),
+        "parse-edit" => check_parse_edit(&p, case["new_rcode"].as_u64().unwrap_or(0) as u16, case["edit"].as_u64().unwrap_or(0) as u8),
         "parse" => check_parse(&p, case["opt_pos"].as_u64().unwrap_or(0) as usize),
         _ => vec![],
     }
